@@ -131,7 +131,7 @@ fn apply_fault(b: &mut Vec<u8>, kind: u8, at: u16, arg: u16) {
 }
 
 fn run_faults(ctx: &mut Ctx) {
-    let cases = ctx.share(ctx.tier.pick(150_000, 6_000_000));
+    let cases = ctx.share(ctx.tier.pick(600_000, 8_000_000));
     let p = ctx.tier.pick(TreeParams::small(), TreeParams::quick());
     let strat = (arb_doc(p), vec((any::<u8>(), any::<u16>(), any::<u16>()), 1..5)).prop_map(|(m, faults)| {
         let mut b = m.enc();
@@ -173,7 +173,7 @@ pub fn check_single(m: &M, obs: &mut Obs) -> Result<(), String> {
 }
 
 fn run_single(ctx: &mut Ctx) {
-    let cases = ctx.share(ctx.tier.pick(3_000, 100_000));
+    let cases = ctx.share(ctx.tier.pick(12_000, 150_000));
     let limit = ctx.tier.pick(96, 512);
     let p = ctx.tier.pick(TreeParams::small(), TreeParams::quick());
     let strat = arb_doc(p).prop_map(move |m| if m.enc().len() <= limit { m } else { M::Arr(vec![M::Str("é".into()), M::Num(N::I(-300))]) });
@@ -188,7 +188,7 @@ fn run_single(ctx: &mut Ctx) {
 }
 
 fn run_raw(ctx: &mut Ctx) {
-    let cases = ctx.share(ctx.tier.pick(100_000, 4_000_000));
+    let cases = ctx.share(ctx.tier.pick(400_000, 5_000_000));
     let strat = prop_oneof![
         2 => vec(any::<u8>(), 0..40).prop_map(Bytes),
         3 => (prop_oneof![Just(0x20u8), Just(0x40), Just(0x80)], 0u8..6, vec(any::<u8>(), 0..40)).prop_map(|(h, n, mut rest)| {
@@ -228,7 +228,7 @@ pub fn check_fallback(t: &Bytes, obs: &mut Obs) -> Result<(), String> {
 }
 
 fn run_fallback(ctx: &mut Ctx) {
-    let cases = ctx.share(ctx.tier.pick(60_000, 2_000_000));
+    let cases = ctx.share(ctx.tier.pick(250_000, 3_000_000));
     let digits = |n: std::ops::Range<usize>| vec(0u8..10, n).prop_map(|v| v.into_iter().map(|d| (b'0' + d) as char).collect::<String>());
     let numtext = (any::<bool>(), 1u8..10, digits(0..40), proptest::option::of(digits(1..8))).prop_map(|(neg, d, rest, frac)| {
         let mut s = String::new();
